@@ -296,6 +296,61 @@ class CFG(object):
         seen = self.reach([self.entry], avoid=lambda n: n is not node and pred(n), follow_exc=follow_exc, edge_ok=edge_ok)
         return all(n is not node for n in seen)
 
+
+    # ----------------------------------------------------- branch correlation
+    def stable_test_texts(self):
+        """Texts of test expressions whose value cannot change between two
+        evaluations: no call, every name assigned at most once in the function."""
+        import ast as _ast
+        counts = {}
+        for n in walk_no_nested(self.fn):
+            if isinstance(n, _ast.Name) and isinstance(n.ctx, (_ast.Store, _ast.Del)):
+                counts[n.id] = counts.get(n.id, 0) + 1
+        out = {}
+        for n in self.nodes:
+            if n.kind != "test":
+                continue
+            e = n.ast
+            if any(isinstance(x, (_ast.Call, _ast.Subscript)) for x in _ast.walk(e)):
+                continue
+            names = [x.id for x in _ast.walk(e) if isinstance(x, _ast.Name)]
+            attrs = [x for x in _ast.walk(e) if isinstance(x, _ast.Attribute)]
+            if attrs:
+                continue
+            if all(counts.get(nm, 0) <= 1 for nm in names):
+                out.setdefault(_ast.unparse(e), []).append(n)
+        return {k: v for k, v in out.items() if len(v) >= 2}
+
+    def facts(self, node):
+        """(test text, label) pairs that hold whenever `node` executes, for
+        stable test expressions evaluated more than once in the function."""
+        res = []
+        for text, tests in self.stable_test_texts().items():
+            ids = {t.id for t in tests}
+            for lab, other in (("t", "f"), ("f", "t")):
+                # node unreachable when every `other` edge of these tests is blocked?  then... no:
+                # node reachable only through `lab` edges  <=>  unreachable when `lab` edges are blocked
+                reach = self.reach([self.entry], follow_exc=False,
+                                   edge_ok=lambda s, l, d, ids=ids, lab=lab: not (s.id in ids and l == lab))
+                if all(x is not node for x in reach):
+                    res.append((text, lab))
+        return res
+
+    def consistent_with(self, node, extra=None):
+        """edge filter forbidding branches that contradict the facts of `node`."""
+        fs = self.facts(node)
+        texts = self.stable_test_texts()
+        block = set()
+        for text, lab in fs:
+            for t in texts[text]:
+                block.add((t.id, "f" if lab == "t" else "t"))
+
+        def edge_ok(s, l, d):
+            if (s.id, l) in block:
+                return False
+            return extra(s, l, d) if extra is not None else True
+        return edge_ok
+
     # ----------------------------------------------------------- dataflow
     def forward(self, init, transfer, refine=None, join=None, follow_exc=True, max_iter=20000):
         """Generic forward dataflow.  States must be hashable/comparable with
